@@ -108,6 +108,21 @@ def build():
             extra = [k.arg for k in rc.keywords if k.arg not in ("dialect",)]
             if extra:
                 problems.append(f"L{rc.lineno}: csv.reader is given {extra}: cells containing that character no longer come back as written")
+        # the default text encoding decodes every character it accepts to itself: a codec that strips a leading U+FEFF (utf-8-sig) or needs a
+        # byte-order mark (utf-16 / utf-32 without endianness) changes the first cell of a file
+        defaults = []
+        for n in ast.walk(tree):
+            if isinstance(n, ast.AnnAssign) and isinstance(n.target, ast.Name) and n.target.id == "encoding" and isinstance(n.value, ast.Constant):
+                defaults.append((n.lineno, n.value.value))
+            if isinstance(n, ast.Call) and ast.unparse(n.func).endswith("add_argument") and any(isinstance(a, ast.Constant) and a.value == "--encoding" for a in n.args):
+                defaults += [(n.lineno, k.value.value) for k in n.keywords if k.arg == "default" and isinstance(k.value, ast.Constant)]
+        if len(defaults) < 2:
+            problems.append(f"anchor lost: the default encodings of Converter and of the --encoding option ({defaults})")
+        for ln, enc in defaults:
+            if str(enc).lower().replace("_", "-") in ("utf-8-sig", "utf8-sig", "utf-16", "utf16", "utf-32", "utf32"):
+                problems.append(f"L{ln}: default encoding {enc!r} treats a leading U+FEFF as a byte-order mark: a first cell that begins with that character loses it")
+        if len({e for _, e in defaults}) > 1:
+            problems.append(f"the Converter default and the --encoding default differ: {defaults}")
         nexts = [n for n in ast.walk(rd) if isinstance(n, ast.Call) and ast.unparse(n.func) == "next"]
         if any(len(n.args) < 2 for n in nexts):
             problems.append("next(csvreader) without a default: an empty file raises StopIteration")
